@@ -114,10 +114,32 @@ def _other_spec(p, r):
     """A spec that differs from p in exactly one knob the mapper's memo caches must be keyed on."""
     import copy
     q = copy.deepcopy(p)
-    which = r.choice(["coarseness", "coarseness", "M", "N", "bits", "glb_size", "fused", "fanout"])
+    MAPPER_KNOBS = {
+        "explore_imperfect_temporal_loops": True, "explore_imperfect_spatial_loops": True,
+        "max_fused_loops_per_rank_variable": 2, "explore_loop_orders": False,
+        "prioritize_reuse_of_unfused_tensors": True, "force_memory_hierarchy_order": False,
+        "max_loops_minus_ranks": 1, "max_loops_per_spatial_dimension": 1,
+    }
+    which = r.choice(["coarseness", "coarseness", "coarseness", "M", "N", "bits", "glb_size", "fused", "fanout",
+                      "knob", "knob", "knob", "metrics", "energy", "throughput", "keep"])
     if which == "coarseness":
         cur = (q.get("mapper") or {}).get("tiling_coarseness", 1)
         q["mapper"] = dict(q.get("mapper") or {}, tiling_coarseness=r.choice([c for c in (1, 2, 4) if c != cur]))
+    elif which == "knob":
+        k = r.choice(sorted(MAPPER_KNOBS))
+        q["mapper"] = dict(q.get("mapper") or {}, **{k: MAPPER_KNOBS[k]})
+        which = "knob:" + k
+    elif which == "metrics":
+        from sim.specgen import METRIC_SETS
+        q["metrics"] = r.choice([m for m in METRIC_SETS if m != q["metrics"]])
+    elif which == "energy":
+        q["main_energy"] = q["main_energy"] * 3 + 1
+        q["glb_energy"] = q["glb_energy"] * 2 + 0.5
+    elif which == "throughput":
+        q["glb_throughput"] = 4 if q["glb_throughput"] != 4 else "inf"
+        q["mac_throughput"] = 2 if q["mac_throughput"] == 1 else 1
+    elif which == "keep":
+        q["glb_keep"] = "All" if q["glb_keep"] != "All" else "~MainMemory"
     elif which == "M":
         q["M"] = r.choice([x for x in (2, 3, 4, 6) if x != q["M"]])
     elif which == "N":
@@ -308,7 +330,9 @@ def exec_compare_run(sc, cfg, tape, workdir, ref_front):
     rr = run_mapper(sc["params"], cfg, tape, body, workdir)
     if cfg.get("prewarm"):
         rr.extra["prewarm_other_spec_runs"] = 1
-        rr.extra["prewarm_" + str(cfg["prewarm"].get("_differs_in"))] = 1
+        rr.extra["prewarm_" + str(cfg["prewarm"].get("_differs_in")).split(":")[0]] = 1
+        if pre.error is not None:
+            rr.extra["prewarm_spec_raised"] = 1
     if rr.error is not None:
         return {"exception": f"perturbed run raised {type(rr.error).__name__}: {str(rr.error)[:300]} "
                              f"while the reference run returned a front"}, rr
